@@ -17,5 +17,6 @@ var zzRegistry = map[string]func(int){
 	"ZZ_C14":      ZZ_C14,
 	"ZZ_C15Stage": ZZ_C15Stage,
 	"ZZ_C15":      ZZ_C15,
+	"ZZ_C16Conc": ZZ_C16Conc,
 	"ZZ_C16":      ZZ_C16,
 }
